@@ -3,7 +3,7 @@ import hashlib
 
 from hypothesis import strategies as st
 
-from vf.harness import HarnessError, Task, drive, hx, unhx
+from vf.harness import HarnessError, Task, drive, hx, same_by_name, unhx
 from vf.model import h2c, vectors
 from vf.strategies import sized_binary
 
@@ -74,6 +74,7 @@ def o_xmd(ctx, case):
             ctx.check(bytes(got2) == bytes(got), "xmd", "constructor_identity", case,
                       "the output depends on WHICH constructor object for the same hash function is passed")
             ctx.label("xmd:other_ctor_style")
+    same_by_name(ctx, "xmd", case, expand_message_xmd, (msg, dst, n, H), got, "expand_message_xmd")
     want = h2c.expand_message_xmd(msg, dst, n, name)
     ok = isinstance(got, (bytes, bytearray)) and len(got) == n and bytes(got) == want
     if not ok:
